@@ -837,6 +837,10 @@ std::vector<DataView> featureData(const MultiTag &tag, std::vector<ndsize_t> pos
         return views;
     }
 
+    if (position_indices.empty()) {
+        // a tag without positions: there is nothing to return (and no largest index to test)
+        return views;
+    }
     ndsize_t max_index = *max_element(position_indices.begin(), position_indices.end());
     if (max_index >= tag.positions().dataExtent()[0]) {
         throw OutOfBounds("Index out of bounds of positions!", 0);
